@@ -115,6 +115,11 @@ func ClusterScope(cs *macaroon.CaveatSet) []string {
 		return err != nil
 	})
 
+	// do we allow id="" (aka id=*)?
+	if possibleIDs[""] {
+		return nil
+	}
+
 	// map ordering is random. sort for consistency in tests.
 	ret := maps.Keys(possibleIDs)
 	slices.Sort(ret)
